@@ -127,8 +127,17 @@ def vector_case(ctx, case):
     ctx.nt('vector', name)
 
 
+def login_case(ctx, case):
+    """The hash that actually reaches the session service: a complete
+    encrypted login on the in-memory network (C10's scripted server and
+    oracle; clause L5-session-join compares the argument of join() with the
+    reference hash over the bytes the server sent)."""
+    from props import c10_login
+    c10_login.login_case(ctx, case)
+
+
 COMPONENTS = {'triple': triple_case, 'digest': digest_case,
-              'vector': vector_case}
+              'vector': vector_case, 'login': login_case}
 
 
 def t_fixed(ctx):
@@ -219,9 +228,30 @@ def t_random(ctx, n):
         lambda c, case: digest_case(c, case), n)
 
 
+def t_login_path(ctx):
+    ids = ['', 'Notch', '0123456789abcdef', 's\u00e9rveur-\u00fcn\u00ef',
+           '\u670d\u52a1\u5668-01', 'id\U0001f600', '\x00', ' a ']
+    k = 0
+    for v in (47, 340, 757):
+        for sid in ids:
+            for enc_ in ('spki', 'pkcs1', 'spki_no_null'):
+                k += 1
+                if k % 3 and enc_ != 'spki':
+                    continue
+                login_case(ctx, {
+                    'version': v, 'terminal': ('success',), 'token': True,
+                    'takeover': False, 'plan': 'whole', 's2c_compress': [],
+                    'steps': [('encrypt', [1024, 2048][k % 2],
+                               b'\x01\x02\x03\x04', sid, enc_)]})
+    ctx.sample({'version': 757, 'server_id': ids[3], 'key': 'pkcs1'},
+               'login')
+    ctx.exhaustive_done('login path: 8 server ids x 3 protocols (x key '
+                        'encodings, rotating)')
+
+
 def tasks(tier):
     q = tier == 'quick'
-    tl = [('fixed', t_fixed, {})]
+    tl = [('fixed', t_fixed, {}), ('login_path', t_login_path, {})]
     for i, base in enumerate(['srv', 'ä', '']):
         tl.append(('search_%d' % i, t_search,
                    dict(base=base, budget=200000 if q else 3000000)))
